@@ -7,6 +7,11 @@ From stdpp Require Import gmap list numbers.
 From Coq Require Import ZArith NArith Lia.
 From Verif Require Import Addr.MemDisk.
 
+(** The birthday and the watching-only flag of the root manager travel
+    together through the proofs: (birthday, watching-only). *)
+Notation m_bw m := (m_birthday m, m_watch m).
+Notation d_bw d := (d_birthday d, d_watch d).
+
 (** ** Field lemmas *)
 
 Lemma np_accts k a m : m_accts (note_pending k a m) = m_accts m.
@@ -17,7 +22,9 @@ Lemma np_synced k a m : m_synced (note_pending k a m) = m_synced m.
 Proof. unfold note_pending. destruct (_ && _); reflexivity. Qed.
 Lemma np_start k a m : m_start (note_pending k a m) = m_start m.
 Proof. unfold note_pending. destruct (_ && _); reflexivity. Qed.
-Lemma np_birthday k a m : m_birthday (note_pending k a m) = m_birthday m.
+Lemma np_birthday k a m : m_bw (note_pending k a m) = m_bw m.
+Proof. unfold note_pending. destruct (_ && _); reflexivity. Qed.
+Lemma np_watch k a m : m_watch (note_pending k a m) = m_watch m.
 Proof. unfold note_pending. destruct (_ && _); reflexivity. Qed.
 Lemma np_locked k a m : m_locked (note_pending k a m) = m_locked m.
 Proof. unfold note_pending. destruct (_ && _); reflexivity. Qed.
@@ -55,7 +62,7 @@ Definition coh_addr (m : mem) (d : disk) : Prop :=
   forall x mt, m_addrs m !! x = Some mt -> x ∈ d_addrs d /\ mt = meta_of d x.
 Definition coh_sync (m : mem) (d : disk) : Prop :=
   m_synced m = d_synced d /\ (s_height (m_start m), s_hash (m_start m)) = d_start d.
-Definition coh_bday (m : mem) (d : disk) : Prop := m_birthday m = d_birthday d.
+Definition coh_bday (m : mem) (d : disk) : Prop := m_bw m = d_bw d.
 Definition coherent (m : mem) (d : disk) : Prop :=
   coh_idx m d /\ coh_name m d /\ coh_addr m d /\ coh_sync m d /\ coh_bday m d.
 
@@ -122,10 +129,10 @@ Lemma read_ans_load q d m :
       | None => AErr EAccountNotFound
       end
   | QProps a =>
-      if (a =? imported_acct)%N then AProps name_imported 0 0 (imported_count d) None false
+      if (a =? imported_acct)%N then AProps name_imported 0 0 (imported_count d) None (m_watch m)
       else match (load_acct d m a).2 with
            | Some ai => AProps (ai_name ai) (ai_ext ai) (ai_int ai) 0 (ai_kind ai)
-                          (negb (has_priv (ai_kind ai)) || m_locked m)
+                          (negb (has_priv (ai_kind ai)) || m_locked m || m_watch m)
            | None => AErr EAccountNotFound
            end
   | QLookupName nm => match d_nameidx d !! nm with Some a => AAcct a | None => AErr EAccountNotFound end
@@ -165,9 +172,9 @@ Proof.
     + case_bool_decide; [|reflexivity]. destruct x as [a b i|k|k]; try reflexivity.
       rewrite HL. reflexivity.
   - rewrite HL. reflexivity.
-  - rewrite HL. reflexivity.
+  - rewrite HL. simpl. injection Hb as _ Hw. rewrite Hw. reflexivity.
   - simpl. rewrite Hs1. reflexivity.
-  - simpl. rewrite Hb. reflexivity.
+  - simpl. injection Hb as Hb _. rewrite Hb. reflexivity.
 Qed.
 
 (** The derivation information a coherent manager reports for an address is
@@ -205,11 +212,11 @@ Definition mem_ext (d : disk) (m m' : mem) : Prop :=
   (forall a ai, m_accts m' !! a = Some ai -> m_accts m !! a = Some ai \/
        (m_accts m !! a = None /\ exists r, d_accts d !! a = Some r /\ ai = info_of_row r)) /\
   (forall x mt, m_addrs m' !! x = Some mt -> m_addrs m !! x = Some mt \/ (x ∈ d_addrs d /\ built_from d m' x mt)) /\
-  m_synced m' = m_synced m /\ m_start m' = m_start m /\ m_birthday m' = m_birthday m.
+  m_synced m' = m_synced m /\ m_start m' = m_start m /\ m_bw m' = m_bw m.
 
 Lemma mem_ext_fields d m m' :
   m_accts m' = m_accts m -> m_addrs m' = m_addrs m -> m_synced m' = m_synced m ->
-  m_start m' = m_start m -> m_birthday m' = m_birthday m -> mem_ext d m m'.
+  m_start m' = m_start m -> m_bw m' = m_bw m -> mem_ext d m m'.
 Proof.
   intros E1 E2 E3 E4 E5. unfold mem_ext. rewrite E1, E2, E3, E4, E5. repeat split; auto.
 Qed.
@@ -242,7 +249,7 @@ Qed.
 Definition same_but (a : N) (m m' : mem) : Prop :=
   (forall a', a' <> a -> m_accts m' !! a' = m_accts m !! a') /\
   m_addrs m' = m_addrs m /\ m_synced m' = m_synced m /\ m_start m' = m_start m /\
-  m_birthday m' = m_birthday m /\ m_locked m' = m_locked m.
+  m_bw m' = m_bw m /\ m_locked m' = m_locked m.
 
 Lemma load_acct_ext d m a m' o :
   load_acct d m a = (m', o) ->
@@ -499,8 +506,9 @@ Lemma step_kinds P o t t' r :
   wfL (t_disk t) -> step P o t = (t', r) -> kinds_kept (t_disk t) (t_disk t').
 Proof.
   intros HL.
-  destruct o as [nm|a nm|a b n|a b last|x|s| |tm|s v|x bs pv|q|nm wk| | |a]; simpl; intros HS.
-  - destruct (m_locked (t_mem t)); [injection HS as <- <-; apply kinds_kept_refl|].
+  destruct o as [nm|a nm|a b n|a b last|x|s| |tm|s v|x bs pv|q|nm wk| | |a| ]; simpl; intros HS.
+  - destruct (m_watch (t_mem t)); [injection HS as <- <-; apply kinds_kept_refl|].
+    destruct (m_locked (t_mem t)); [injection HS as <- <-; apply kinds_kept_refl|].
     eapply new_account_kinds; eauto.
   - repeat case_match; simplify_eq; simpl; try apply kinds_kept_refl;
       rewrite rename_switch_eq; apply rename_rows_kinds; assumption.
@@ -525,6 +533,7 @@ Proof.
   - repeat case_match; simplify_eq; simpl; apply kinds_kept_refl.
   - repeat case_match; simplify_eq; simpl; apply kinds_kept_refl.
   - injection HS as <- <-. apply kinds_kept_refl.
+  - destruct (m_watch (t_mem t)); injection HS as <- <-; [apply kinds_kept_refl|]. split; simpl; eauto.
 Qed.
 
 Lemma coh_addr_transfer m d d' :
@@ -587,7 +596,7 @@ Lemma abort_k_next P o ops armed issued T :
   abort_k P armed issued T (o :: ops) = false ->
   abort_k P (arm o armed) (iss o issued) (tnt o armed T) ops = false.
 Proof.
-  destruct o as [nm|a nm|a b n|a b last|x|s| |tm|s v|x bs pv|q|nm wk| | |a]; simpl; try discriminate; auto.
+  destruct o as [nm|a nm|a b n|a b last|x|s| |tm|s v|x bs pv|q|nm wk| | |a| ]; simpl; try discriminate; auto.
   - intros H. apply orb_false_iff in H as [_ H]. exact H.
   - intros H. apply orb_false_iff in H as [_ H]. exact H.
   - intros H. apply orb_false_iff in H as [_ H]. exact H.
@@ -600,7 +609,7 @@ Qed.
 Lemma AIK_cong d0 d m armed issued T d' m' :
   d_accts d' = d_accts d -> d_addrs d' = d_addrs d -> d_schema d' = d_schema d ->
   m_accts m' = m_accts m -> (forall x mt, m_addrs m' !! x = Some mt -> m_addrs m !! x = Some mt) ->
-  m_synced m' = m_synced m -> m_start m' = m_start m -> m_birthday m' = m_birthday m ->
+  m_synced m' = m_synced m -> m_start m' = m_start m -> m_bw m' = m_bw m ->
   AIK d0 d m armed issued T -> AIK d0 d' m' armed issued T.
 Proof.
   intros E1 E2 E2' E3 E4 E5 E6 E7 (A & B & C & D & E & S & H2 & H3).
@@ -736,9 +745,10 @@ Lemma abort_k_step P d0 o ops t t' r armed issued T :
   AIK d0 (t_disk t') (t_mem t') (arm o armed) (iss o issued) (tnt o armed T).
 Proof.
   intros HK HS HI.
-  destruct o as [nm|a nm|a b n|a b last|x|s| |tm|s v|x bs pv|q|nm wk| | |a]; simpl in HK; try discriminate.
+  destruct o as [nm|a nm|a b n|a b last|x|s| |tm|s v|x bs pv|q|nm wk| | |a| ]; simpl in HK; try discriminate.
   - (* new account *)
-    simpl in HS. destruct (m_locked (t_mem t)); [injection HS as <- <-; eapply AIK_arm; exact HI|].
+    simpl in HS. destruct (m_watch (t_mem t)); [injection HS as <- <-; eapply AIK_arm; exact HI|].
+    destruct (m_locked (t_mem t)); [injection HS as <- <-; eapply AIK_arm; exact HI|].
     eapply new_account_AIK; eauto.
   - (* rename, deferred *)
     apply orb_false_iff in HK as [Hre HK]. simpl in HS. rewrite Hre in HS. apply AIK_arm in HI.
@@ -787,10 +797,12 @@ Proof.
   - (* new watch-only account *)
     simpl in HS. eapply new_account_AIK; eauto.
   - (* lock *)
-    simpl in HS. destruct (m_locked (t_mem t)); injection HS as <- <-; [exact HI|].
+    simpl in HS. destruct (m_watch (t_mem t)); [injection HS as <- <-; exact HI|].
+    destruct (m_locked (t_mem t)); injection HS as <- <-; [exact HI|].
     simpl. eapply AIK_cong; [..|exact HI]; auto.
   - (* unlock *)
     apply orb_false_iff in HK as [-> HK]. simpl in HS.
+    destruct (m_watch (t_mem t)); [injection HS as <- <-; exact HI|].
     destruct (negb (m_locked (t_mem t))); [injection HS as <- <-; exact HI|].
     destruct (load_all (t_disk t) (t_mem t) (m_pending (t_mem t))) as [m1 ok] eqn:EL.
     apply load_all_ext in EL as [HE HA].
@@ -990,7 +1002,7 @@ Definition pend_of (P : params) (o : op) (pend : list (N * bool)) : list (N * bo
 Lemma commit_k_idx_next P o ops pend :
   commit_k_idx P pend (o :: ops) = false -> commit_k_idx P (pend_of P o pend) ops = false.
 Proof.
-  destruct o as [nm|a nm|a b n|a b last|x|s| |tm|s v|x bs pv|q|nm wk| | |a]; simpl; auto.
+  destruct o as [nm|a nm|a b n|a b last|x|s| |tm|s v|x bs pv|q|nm wk| | |a| ]; simpl; auto.
   - destruct (p_ee P); auto. intros H. apply orb_false_iff in H as [_ H]. exact H.
   - intros H. apply orb_false_iff in H as [_ H]. exact H.
 Qed.
@@ -1050,9 +1062,10 @@ Lemma commit_idx_step P o ops t t' r pend :
   TI_idx (t_disk t') (t_mem t') (t_cbs t') (pend_of P o pend).
 Proof.
   intros HK HS HT.
-  destruct o as [nm|a nm|a b n|a b last|x|s| |tm|s v|x bs pv|q|nm wk| | |a]; simpl in HK.
+  destruct o as [nm|a nm|a b n|a b last|x|s| |tm|s v|x bs pv|q|nm wk| | |a| ]; simpl in HK.
   - (* new account *)
-    simpl in HS. destruct (m_locked (t_mem t)); [injection HS as <- <-; exact HT|].
+    simpl in HS. destruct (m_watch (t_mem t)); [injection HS as <- <-; exact HT|].
+    destruct (m_locked (t_mem t)); [injection HS as <- <-; exact HT|].
     eapply new_account_TI_idx; eauto.
   - (* rename *)
     simpl in HS.
@@ -1151,10 +1164,12 @@ Proof.
   - (* new watch-only account *)
     simpl in HS. eapply new_account_TI_idx; eauto.
   - (* lock *)
-    simpl in HS. destruct (m_locked (t_mem t)); injection HS as <- <-; [exact HT|].
+    simpl in HS. destruct (m_watch (t_mem t)); [injection HS as <- <-; exact HT|].
+    destruct (m_locked (t_mem t)); injection HS as <- <-; [exact HT|].
     simpl. eapply TI_idx_cong; [..|exact HT]; reflexivity.
   - (* unlock *)
-    simpl in HS. destruct (negb (m_locked (t_mem t))); [injection HS as <- <-; exact HT|].
+    simpl in HS. destruct (m_watch (t_mem t)); [injection HS as <- <-; exact HT|].
+    destruct (negb (m_locked (t_mem t))); [injection HS as <- <-; exact HT|].
     destruct (load_all (t_disk t) (t_mem t) (m_pending (t_mem t))) as [m1 ok] eqn:EL.
     apply load_all_ext in EL as [HE _].
     pose proof (TI_idx_ext _ _ _ _ _ HT HE) as HT1.
@@ -1170,6 +1185,9 @@ Proof.
       apply existsb_exists. exists (cb_acct c, cb_branch c). split; [apply elem_of_list_In; exact Hq2|].
       simpl. apply N.eqb_eq. congruence.
     + simpl. intros a' ai' Ha'. apply lookup_delete_Some in Ha' as [_ Ha']. apply C; exact Ha'.
+  - (* convert to watching-only *)
+    simpl in HS. destruct (m_watch (t_mem t)); injection HS as <- <-; [exact HT|].
+    simpl. eapply TI_idx_cong; [..|exact HT]; reflexivity.
 Qed.
 
 (** Index part alone (holds whatever the other components look like). *)
@@ -1247,7 +1265,7 @@ Qed.
 
 Lemma TI_rest_cong P d m m' cbs ncbs :
   m_accts m' = m_accts m -> (forall x mt, m_addrs m' !! x = Some mt -> m_addrs m !! x = Some mt) ->
-  m_synced m' = m_synced m -> m_start m' = m_start m -> m_birthday m' = m_birthday m ->
+  m_synced m' = m_synced m -> m_start m' = m_start m -> m_bw m' = m_bw m ->
   TI_rest P d m cbs ncbs -> TI_rest P d m' cbs ncbs.
 Proof.
   intros E1 E2 E3 E4 E5 (A & A2 & A3 & A4 & B & C & D & E & F).
@@ -1291,7 +1309,7 @@ Lemma put_rows_TI_rest P d m m' cbs ncbs a b xs r0 nx newcbs mt :
   (forall a' ai', m_accts m' !! a' = Some ai' ->
      exists ai0, m_accts m !! a' = Some ai0 /\ ai_name ai' = ai_name ai0 /\ ai_kind ai' = ai_kind ai0) ->
   (forall x v, m_addrs m' !! x = Some v -> (x ∈ xs /\ v = mt) \/ m_addrs m !! x = Some v) ->
-  m_synced m' = m_synced m -> m_start m' = m_start m -> m_birthday m' = m_birthday m ->
+  m_synced m' = m_synced m -> m_start m' = m_start m -> m_bw m' = m_bw m ->
   Forall (fun c => forall x v, (x, v) ∈ cb_addrs c -> x ∈ xs /\ v = mt) newcbs ->
   TI_rest P (set_d_accts (<[a := row_set_next b nx r0]> (d_accts d))
                (set_d_addrs (list_to_set xs ∪ d_addrs d) d)) m' (cbs ++ newcbs) ncbs.
@@ -1416,9 +1434,10 @@ Proof.
   assert (HLD : forall a m1 oo, load_acct (t_disk t) (t_mem t) a = (m1, oo) ->
             TI_idx (t_disk t) m1 (t_cbs t) pend /\ TI_rest P (t_disk t) m1 (t_cbs t) (t_ncbs t)).
   { intros a m1 oo EL. apply load_acct_ext in EL as (HE & _ & _). eapply TI_both_ext; eauto. }
-  destruct o as [nm|a nm|a b n|a b last|x|s| |tm|s v|x bs pv|q|nm wk| | |a]; simpl in HN; try discriminate.
+  destruct o as [nm|a nm|a b n|a b last|x|s| |tm|s v|x bs pv|q|nm wk| | |a| ]; simpl in HN; try discriminate.
   - (* new account *)
-    simpl in HS. destruct (m_locked (t_mem t)); [injection HS as <- <-; exact HR|].
+    simpl in HS. destruct (m_watch (t_mem t)); [injection HS as <- <-; exact HR|].
+    destruct (m_locked (t_mem t)); [injection HS as <- <-; exact HR|].
     eapply new_account_TI_rest; eauto.
   - (* rename *)
     simpl in HS.
@@ -1514,7 +1533,8 @@ Proof.
   - (* birthday *)
     simpl in HS. injection HS as <- <-. simpl.
     destruct HR as (A & A2 & A3 & A4 & B & C & D & E & F).
-    split; [exact A|split; [exact A2|split; [exact A3|split; [exact A4|split; [exact B|split; [exact C|split; [exact D|split; [exact E|reflexivity]]]]]]]].
+    split; [exact A|split; [exact A2|split; [exact A3|split; [exact A4|split; [exact B|split; [exact C|split; [exact D|split; [exact E|]]]]]]]].
+    unfold coh_bday in *. simpl. injection F as _ ->. reflexivity.
   - (* birthday block *)
     simpl in HS. injection HS as <- <-. simpl.
     destruct HR as (A & A2 & A3 & A4 & B & C & D & E & F).
@@ -1523,7 +1543,7 @@ Proof.
     simpl in HS. destruct HR as (A & A2 & A3 & A4 & B & C & D & [E1 E2] & F).
     destruct (negb (addr_imported x)) eqn:Eimp;
       [injection HS as <- <-; split; [exact A|split; [exact A2|split; [exact A3|split; [exact A4|split; [exact B|split; [exact C|split; [exact D|split; [split; assumption|exact F]]]]]]]]|].
-    destruct (import_needs_unlock x pv && m_locked (t_mem t));
+    destruct (import_locked x pv (t_mem t));
       [injection HS as <- <-; split; [exact A|split; [exact A2|split; [exact A3|split; [exact A4|split; [exact B|split; [exact C|split; [exact D|split; [split; assumption|exact F]]]]]]]]|].
     destruct (bool_decide (is_Some (m_addrs (t_mem t) !! x)) || bool_decide (x ∈ d_addrs (t_disk t)));
       [injection HS as <- <-; split; [exact A|split; [exact A2|split; [exact A3|split; [exact A4|split; [exact B|split; [exact C|split; [exact D|split; [split; assumption|exact F]]]]]]]]|].
@@ -1557,10 +1577,12 @@ Proof.
   - (* new watch-only account *)
     simpl in HS. eapply new_account_TI_rest; eauto.
   - (* lock *)
-    simpl in HS. destruct (m_locked (t_mem t)); injection HS as <- <-; [exact HR|].
+    simpl in HS. destruct (m_watch (t_mem t)); [injection HS as <- <-; exact HR|].
+    destruct (m_locked (t_mem t)); injection HS as <- <-; [exact HR|].
     simpl. eapply TI_rest_cong; [..|exact HR]; auto.
   - (* unlock *)
-    simpl in HS. destruct (negb (m_locked (t_mem t))); [injection HS as <- <-; exact HR|].
+    simpl in HS. destruct (m_watch (t_mem t)); [injection HS as <- <-; exact HR|].
+    destruct (negb (m_locked (t_mem t))); [injection HS as <- <-; exact HR|].
     destruct (load_all (t_disk t) (t_mem t) (m_pending (t_mem t))) as [m1 ok] eqn:EL.
     apply load_all_ext in EL as [HE _].
     destruct (TI_both_ext _ _ _ _ _ _ _ HI HR HE) as [_ HR1].
@@ -1571,6 +1593,14 @@ Proof.
     destruct HR as (A & A2 & A3 & A4 & B & C & D & E & F).
     split; [|split; [exact A2|split; [exact A3|split; [exact A4|split; [exact B|split; [exact C|split; [exact D|split; [exact E|exact F]]]]]]]].
     intros a' ai' r' Ha' Hr'. simpl in Ha'. apply lookup_delete_Some in Ha' as [_ Ha']. eapply A; eauto.
+  - (* convert to watching-only: rows, names, addresses stay; both flags are set *)
+    simpl in HS. destruct (m_watch (t_mem t)); injection HS as <- <-; [exact HR|]. simpl.
+    destruct HR as (A & A2 & A3 & A4 & B & C & D & E & F).
+    assert (HK : kinds_kept (t_disk t) (set_d_watch true (t_disk t))) by (split; simpl; eauto).
+    split; [exact A|split; [exact A2|split; [exact A3|split; [exact A4|split; [|split; [|split; [exact D|split; [exact E|]]]]]]]].
+    + eapply coh_addr_transfer; eauto.
+    + eapply cbs_transfer; eauto.
+    + unfold coh_bday in *. simpl. injection F as -> _. reflexivity.
 Qed.
 
 Lemma cb_ok_lookup d c x mt : cb_ok d c -> (x, mt) ∈ cb_addrs c -> x ∈ d_addrs d /\ mt = meta_of d x.
@@ -1578,7 +1608,7 @@ Proof. intros H. apply H. Qed.
 
 Lemma run_cb_fields c m :
   m_addrs (run_cb c m) = m_addrs (cache_all (cb_addrs c) m) /\
-  m_synced (run_cb c m) = m_synced m /\ m_start (run_cb c m) = m_start m /\ m_birthday (run_cb c m) = m_birthday m.
+  m_synced (run_cb c m) = m_synced m /\ m_start (run_cb c m) = m_start m /\ m_bw (run_cb c m) = m_bw m.
 Proof.
   unfold run_cb. destruct (m_locked m && cb_priv c); simpl; destruct (m_accts m !! cb_acct c); simpl; auto.
 Qed.
@@ -1672,7 +1702,7 @@ Lemma abort_k_idx_next P o ops armed T :
   abort_k_idx P armed T (o :: ops) = false ->
   abort_k_idx P (arm_idx o armed) (tnt_idx o armed T) ops = false.
 Proof.
-  destruct o as [nm|a nm|a b n|a b last|x|s| |tm|s v|x bs pv|q|nm wk| | |a]; simpl; auto.
+  destruct o as [nm|a nm|a b n|a b last|x|s| |tm|s v|x bs pv|q|nm wk| | |a| ]; simpl; auto.
   - intros H. apply orb_false_iff in H as [_ H]. exact H.
   - destruct q as [[a b i|k|k]|a b|a|nm|a| | |h| | ]; simpl; auto.
   - intros H. apply orb_false_iff in H as [_ H]. exact H.
@@ -1750,9 +1780,10 @@ Lemma abort_idx_step P d0 o ops t t' r armed T :
   AI_idx d0 (t_disk t') (t_mem t') (arm_idx o armed) (tnt_idx o armed T).
 Proof.
   intros HK HS HI.
-  destruct o as [nm|a nm|a b n|a b last|x|s| |tm|s v|x bs pv|q|nm wk| | |a]; simpl in HK.
+  destruct o as [nm|a nm|a b n|a b last|x|s| |tm|s v|x bs pv|q|nm wk| | |a| ]; simpl in HK.
   - (* new account *)
-    simpl in HS. destruct (m_locked (t_mem t)); [injection HS as <- <-; eapply AI_idx_weaken; exact HI|].
+    simpl in HS. destruct (m_watch (t_mem t)); [injection HS as <- <-; eapply AI_idx_weaken; exact HI|].
+    destruct (m_locked (t_mem t)); [injection HS as <- <-; eapply AI_idx_weaken; exact HI|].
     eapply new_account_AI_idx; eauto.
   - (* rename: the rows keep their indices, the cached entry too *)
     simpl in HS.
@@ -1832,10 +1863,12 @@ Proof.
   - (* new watch-only account *)
     simpl in HS. eapply new_account_AI_idx; eauto.
   - (* lock *)
-    simpl in HS. destruct (m_locked (t_mem t)); injection HS as <- <-; [exact HI|].
+    simpl in HS. destruct (m_watch (t_mem t)); [injection HS as <- <-; exact HI|].
+    destruct (m_locked (t_mem t)); injection HS as <- <-; [exact HI|].
     simpl. eapply AI_idx_cong; [..|exact HI]; reflexivity.
   - (* unlock *)
     apply orb_false_iff in HK as [-> HK]. simpl in HS.
+    destruct (m_watch (t_mem t)); [injection HS as <- <-; exact HI|].
     destruct (negb (m_locked (t_mem t))); [injection HS as <- <-; exact HI|].
     destruct (load_all (t_disk t) (t_mem t) (m_pending (t_mem t))) as [m1 ok] eqn:EL.
     apply load_all_ext in EL as [HE _].
@@ -1848,6 +1881,9 @@ Proof.
     destruct HI as [A _]. split; [|discriminate].
     intros a' ai Hn Ha'. simpl in Ha'. apply lookup_delete_Some in Ha' as [Hne Ha'].
     eapply A; eauto. intros Hin. apply Hn, rm_taint_spec. auto.
+  - (* convert to watching-only *)
+    simpl in HS. destruct (m_watch (t_mem t)); injection HS as <- <-; [exact HI|].
+    simpl. eapply AI_idx_cong; [..|exact HI]; reflexivity.
 Qed.
 
 Lemma abort_idx_ops P d0 ops : forall t t' outs armed T,
@@ -2117,7 +2153,7 @@ Lemma issue_step_J P d0 m0 o t t' r :
   issue_or_read o = true -> step P o t = (t', r) ->
   J d0 m0 (t_disk t) (t_mem t) -> J d0 m0 (t_disk t') (t_mem t').
 Proof.
-  intros HO HS HJ. destruct o as [| |a b n| | | | | | | |q| | | |]; try discriminate.
+  intros HO HS HJ. destruct o as [| |a b n| | | | | | | |q| | | | |]; try discriminate.
   - simpl in HS.
     destruct (load_acct (t_disk t) (t_mem t) a) as [m1 o] eqn:EL.
     apply load_acct_ext in EL as (HE & _ & Ho).
@@ -2199,7 +2235,7 @@ Lemma abort_k_idx_sub P ops : forall armed1 armed2 issued T1 T2,
 Proof.
   induction ops as [|o ops IH]; intros armed1 armed2 issued T1 T2 HA HT H.
   - simpl in *. eapply tainted_sub; eauto.
-  - destruct o as [nm|a nm|a b n|a b last|x|s| |tm|s v|x bs pv|q|nm wk| | |a]; simpl in *; auto.
+  - destruct o as [nm|a nm|a b n|a b last|x|s| |tm|s v|x bs pv|q|nm wk| | |a| ]; simpl in *; auto.
     + eapply IH; [| |exact H]; auto.
     + apply orb_true_iff. right. eapply IH; [| |exact H]; auto.
     + apply orb_true_iff. right. eapply IH; [| |exact H]; try (apply taint_if_sub); auto.
@@ -2297,6 +2333,7 @@ Definition w_dry_import_kept :=
   [tx [ONewAccountWO 5 wo1; ORead (QProps 1); ONext 1 false 2; ONext 1 true 2; ORead (QProps 1)] AbortDryRun].
 Definition w_stale_callback := [tx [ONext 0 false 1; OExtend 0 false 4] Commit].
 Definition w_synced_nil := [tx [OSetSyncedNil] Commit].
+Definition w_convert := [tx [OConvert] CommitFails].
 
 (** Which witnesses are inside K depends on the source ([params]): the
     rolled-back rename only while rename is eager, the rolled-back extension and
@@ -2306,10 +2343,10 @@ Lemma witnesses_in_K P :
   in_K P w_dry_import = p_rb P /\
   forallb (fun h => in_K P h)
     [w_rename_reload; w_synced; w_issue_lookup; w_birthday; w_import; w_newacct_read;
-     w_evict_reload; w_dry_import_kept; w_synced_nil] = true /\
+     w_evict_reload; w_dry_import_kept; w_synced_nil; w_convert] = true /\
   forallb times_ok
     [w_rename; w_rename_reload; w_synced; w_extend; w_issue_lookup; w_birthday; w_import; w_newacct_read;
-     w_evict_reload; w_dry_import; w_dry_import_kept; w_stale_callback; w_synced_nil] = true.
+     w_evict_reload; w_dry_import; w_dry_import_kept; w_stale_callback; w_synced_nil; w_convert] = true.
 Proof. destruct P as [[] [] []]; vm_compute; repeat split. Qed.
 
 Lemma witnesses_diverge P :
@@ -2326,7 +2363,8 @@ Lemma witnesses_diverge P :
   diverges P w_dry_import_kept (QProps 1) = true /\
   diverges P w_dry_import (QProps 1) = false /\
   diverges P w_stale_callback (QProps 0) = p_ee P /\
-  diverges P w_synced_nil QSynced = true.
+  diverges P w_synced_nil QSynced = true /\
+  diverges P w_convert (QProps imported_acct) = true.
 Proof. destruct P as [[] [] []]; vm_compute; repeat split. Qed.
 
 (** The plain dry-run issuance: inside K, and diverging, exactly when the
